@@ -882,6 +882,30 @@ namespace bloch::runtime {
         return ambiguous ? nullptr : best;
     }
 
+    // Appends `cls` to `order` after the class it extends (when that class is declared in the
+    // program), so a class table populated in this order always finds its base classes complete,
+    // whatever the order of declaration.
+    static void appendBaseFirst(compiler::ClassDeclaration* cls, Program& program,
+                                std::unordered_set<std::string>& queued,
+                                std::vector<compiler::ClassDeclaration*>& order) {
+        if (!cls || !queued.insert(cls->name).second)
+            return;
+        std::string baseName;
+        if (auto named = dynamic_cast<NamedType*>(cls->baseType.get()))
+            baseName = named->nameParts.back();
+        else if (!cls->baseName.empty())
+            baseName = cls->baseName.back();
+        else if (!cls->isStatic && cls->name != "Object")
+            baseName = "Object";
+        if (!baseName.empty()) {
+            for (auto& other : program.classes) {
+                if (other && other->name == baseName)
+                    appendBaseFirst(other.get(), program, queued, order);
+            }
+        }
+        order.push_back(cls);
+    }
+
     void RuntimeEvaluator::buildClassTable(Program& program) {
         m_classTable.clear();
         m_genericTemplates.clear();
@@ -920,8 +944,11 @@ namespace bloch::runtime {
             rc->isAbstract = clsNode->isAbstract;
             m_classTable[rc->name] = rc;
         }
-        // populate members
-        for (auto& clsNode : program.classes) {
+        // populate members, base classes before the classes derived from them
+        std::vector<compiler::ClassDeclaration*> order;
+        std::unordered_set<std::string> queued;
+        for (auto& clsNode : program.classes) appendBaseFirst(clsNode.get(), program, queued, order);
+        for (compiler::ClassDeclaration* clsNode : order) {
             if (!clsNode || !clsNode->typeParameters.empty())
                 continue;  // generic templates handled lazily
             RuntimeClass* rc = findClass(clsNode->name);
